@@ -132,7 +132,9 @@ def isIntLex (lex : Bytes) : Bool := lex.all fun c => c = 45 || (48 â‰¤ c && c â
 
 mutual
 /-- the `Var` the decoder builds: integers of at most 9 characters become `int`, every other number goes
-    through `atof` on its lexeme; duplicate keys keep their first position and their last value -/
+    through `atof` on its lexeme; a duplicate key keeps only its last value (`norm_object_lookup`).  The order
+    of the members in the list is a representation detail: `Var` objects are sorted maps and both sides of the
+    correspondence check print members sorted by key, so no order is claimed or observable -/
 def norm : JV â†’ JV
   | .num lex => if isIntLex lex âˆ§ lex.length â‰¤ 9 then .int (decVal lex) else .num lex
   | .arr l => .arr (normL l)
